@@ -23,6 +23,8 @@ ASSUME \A o \in { x \in Ops : x.op \in {"rotx", "roty", "rotz", "rotate"} } : \A
 ASSUME Apply(Rz(<<Zero, One>>), PtI(<<1, 0, 0>>)) = PtI(<<0, 1, 0>>) /\ Apply(Rx(<<Zero, One>>), PtI(<<0, 1, 0>>)) = PtI(<<0, 0, 1>>) /\ Apply(Ry(<<Zero, One>>), PtI(<<0, 0, 1>>)) = PtI(<<1, 0, 0>>)
 ASSUME \A a \in Angles : Rod(<<One, Zero, Zero>>, a) = Rx(a) /\ Rod(<<Zero, One, Zero>>, a) = Ry(a) /\ Rod(<<Zero, Zero, One>>, a) = Rz(a)
 ASSUME \A n \in Axes : \A a \in Angles : Apply(Rod(n, a), n) = n
+\* turning about the opposite axis is turning by the opposite angle
+ASSUME \A n \in Axes : \A a \in Angles : Rod(<<RNeg(n[1]), RNeg(n[2]), RNeg(n[3])>>, a) = Rod(n, <<a[1], RNeg(a[2])>>)
 \* scaling multiplies root-relative offsets per axis
 ASSUME \A sv \in Ss : \A c, p \in Pts : LET q == Apply(About(S(sv), c), p) IN \A i \in 1 .. 3 : RSub(q[i], c[i]) = RMul(sv[i], RSub(p[i], c[i]))
 \* a transform followed by its inverse restores the original coordinates
